@@ -141,6 +141,72 @@ func TestVerifReplay(t *testing.T) {
     return "not-reproduced", m.group(0)
 
 
+def cross_validate(cfg, tier, workdir):
+    """Concrete cross-validation: VerifXval_* entries run through the engine and natively; transcripts must match.
+    Returns (lines_matched, problems)."""
+    pkgs = [p for p in cfg["pkgs"] if glob.glob(os.path.join(VERIF, "harness", p, "xval*.go"))]
+    if not pkgs:
+        return 0, []
+    problems = []
+    out = os.path.join(workdir, "xval.json")
+    c2 = dict(cfg, pkgs=pkgs, entry="VerifXval_.*")
+    c2[tier] = dict(cfg.get(tier, {}), sched=False, workers=2)
+    p = run_gosym(c2, tier, out)
+    if p.returncode != 0 or not os.path.exists(out):
+        return 0, ["cross-validation: gosym failed: " + p.stderr[-600:]]
+    eng = {}
+    for e in json.load(open(out))["entries"]:
+        if e["unsupported"] or not e.get("transcript"):
+            problems.append("cross-validation: %s did not run to completion in the engine: %s" % (e["entry"], list(e["unsupported"])[:2]))
+            continue
+        eng[e["entry"]] = e["transcript"]
+    matched = 0
+    for pkgpath in sorted(set(k.rsplit(".", 1)[0] for k in eng)):
+        rel = pkgpath[len("grog/"):]
+        fns = sorted(k.rsplit(".", 1)[1] for k in eng if k.rsplit(".", 1)[0] == pkgpath)
+        overlay = {}
+        pkgname = None
+        for pp in cfg["pkgs"]:
+            for f in glob.glob(os.path.join(VERIF, "harness", pp, "*.go")):
+                overlay[os.path.join(REPO, pp, "zz_verif_" + os.path.basename(f))] = f
+                if pp == rel and pkgname is None:
+                    pkgname = re.search(r"^package (\w+)", open(f).read(), re.M).group(1)
+        for d in glob.glob(os.path.join(VERIF, "support", "*")):
+            for f in glob.glob(os.path.join(d, "*.go")):
+                overlay[os.path.join(REPO, "internal", "zzverif", os.path.basename(d), "zz_verif_" + os.path.basename(f))] = f
+        test = os.path.join(workdir, "xval_%s_test.go" % pkgname)
+        body = "\n".join('\t%s()\n\tfor _, l := range sym.TakeTranscript() {\n\t\tfmt.Printf("XVAL %s %%s\\n", l)\n\t}' % (fn, fn) for fn in fns)
+        open(test, "w").write("//go:build verif\n\npackage %s\n\nimport (\n\t\"fmt\"\n\t\"testing\"\n\n\t\"grog/internal/zzverif/sym\"\n)\n\nfunc TestVerifXval(t *testing.T) {\n%s\n}\n" % (pkgname, body))
+        overlay[os.path.join(REPO, rel, "zz_verif_xval_test.go")] = test
+        ov = os.path.join(workdir, "xval_overlay.json")
+        json.dump({"Replace": overlay}, open(ov, "w"))
+        try:
+            pr = subprocess.run(["go", "test", "-v", "-tags", "verif", "-vet=off", "-count=1", "-overlay", ov, "-run", "^TestVerifXval$", "./" + rel],
+                                cwd=REPO, env=GOENV, stdout=subprocess.PIPE, stderr=subprocess.STDOUT, text=True, timeout=600)
+        except subprocess.TimeoutExpired:
+            problems.append("cross-validation: native run of %s timed out" % rel)
+            continue
+        nat = {}
+        for line in pr.stdout.splitlines():
+            m = re.match(r"XVAL (\S+) (.*)", line)
+            if m:
+                nat.setdefault(m.group(1), []).append(m.group(2))
+        for fn in fns:
+            a, b = eng[pkgpath + "." + fn], nat.get(fn)
+            if b is None:
+                problems.append("cross-validation: native run of %s produced no transcript: %s" % (fn, pr.stdout[-400:]))
+                continue
+            b = [x.rstrip() for x in b]
+            a = [x.rstrip() for x in a]
+            if a != b:
+                diff = next((i for i in range(min(len(a), len(b))) if a[i] != b[i]), min(len(a), len(b)))
+                problems.append("cross-validation MISMATCH in %s at line %d: engine %r vs native %r" % (
+                    fn, diff, a[diff] if diff < len(a) else None, b[diff] if diff < len(b) else None))
+            else:
+                matched += len(a)
+    return matched, problems
+
+
 def engine_replay(cfg, tier, viol, workdir):
     vf = os.path.join(workdir, "viol.json")
     json.dump(viol, open(vf, "w"))
@@ -315,6 +381,9 @@ def main():
         else:
             problems.append("counterexample for %s did not reproduce (%s): %s" % (v["id"], status, detail[:400]))
 
+    xval_lines, xval_problems = cross_validate(cfg, tier, work)
+    problems += xval_problems
+
     wall = time.time() - t0
     nontrivial = sum(max(0, s["checked"] - s["trivial"]) for s in seen_ids.values())
     evidence = {
@@ -327,7 +396,9 @@ def main():
         "coverage": {
             "states": max(tot["paths"], 1) if tot["paths"] else 0,
             "transitions": max(tot["forks"], 1) if tot["paths"] else 0,
-            "traces_validated_against_impl": confirmed,
+            "traces_validated_against_impl": confirmed + xval_lines,
+            "cross_validation_transcript_lines_matched": xval_lines,
+            "counterexamples_replayed": confirmed,
             "samples": samples or [{"note": "no completed path produced a sample model"}],
             "obligations": tot["checked"],
             "discharged": tot["discharged"],
